@@ -503,14 +503,26 @@ def r7_6(ctx: Ctx) -> RuleResult:
 
     parents = parent_map(fn.node)
 
-    class _Bind(ast.NodeTransformer):
-        def __init__(self, value: str) -> None:
-            self.value = value
+    # the token text is whatever int() converts into the selector's index
+    def text_expr(c: ast.Call) -> str:
+        idx = kw(c, "index")
+        cands: List[ast.expr] = [idx] if idx is not None else []
+        if isinstance(idx, ast.Name):
+            cands = [a.value for a in ast.walk(fn.node) if isinstance(a, ast.Assign) and path_of(a.targets[0]) == idx.id]
+        for v in cands:
+            if isinstance(v, ast.Call) and callee_name(v) == "int" and len(v.args) == 1:
+                return ast.unparse(v.args[0])
+        raise AnalysisError(f"R7.6: the index passed to `{short(c, 60)}` is not the result of int(<token text>)")
 
-        def visit_Attribute(self, node: ast.Attribute) -> ast.AST:
-            if path_of(node) == "stream.current.value":
+    class _Bind(ast.NodeTransformer):
+        def __init__(self, value: str, text: str) -> None:
+            self.value = value
+            self.text = text
+
+        def visit(self, node: ast.AST) -> ast.AST:
+            if isinstance(node, (ast.Attribute, ast.Name)) and isinstance(node.ctx, ast.Load) and ast.unparse(node) == self.text:
                 return ast.Constant(value=self.value)
-            return self.generic_visit(node)
+            return super().visit(node)
 
     leading = [s_ for s_ in shapes if _re.fullmatch(r"-?0[0-9]+|-0", s_)]
     for c in ctor:
@@ -532,7 +544,7 @@ def r7_6(ctx: Ctx) -> RuleResult:
             for t in tests:
                 import copy as _copy
 
-                bound = _Bind(shape).visit(_copy.deepcopy(t))
+                bound = _Bind(shape, text_expr(c)).visit(_copy.deepcopy(t))
                 ast.fix_missing_locations(bound)
                 try:
                     if ctx.folder.eval_in(bound, fn.module, fn.cls):
